@@ -232,6 +232,17 @@ pub fn run_c10(ctx: &mut Ctx) {
                 }
             }
         }
+        // compound arguments: two words (valid members of some class, or not) joined by a separator
+        {
+            let words = ["en", "abc", "abcde", "abcdefgh", "Latn", "US", "001", "macos", "1996", "12345678", "ca", "k0", "h12", "foobar", "true", "a", "zz1", "aaa", "toolongvalue", "", "\u{e9}", "!"];
+            for w1 in words {
+                for w2 in words {
+                    for sep in ["-", "_"] {
+                        args.push(format!("{}{}{}", w1, sep, w2).into_bytes());
+                    }
+                }
+            }
+        }
         let abc = || b"abc".to_vec();
         let kinds: Vec<(&'static str, Box<dyn Fn(Vec<u8>) -> Op>)> = vec![
             ("set_language", Box::new(Op::SetLanguage)),
